@@ -161,8 +161,19 @@ func c04initNames() (quick int) {
 	c04addName("digits-001", c04wireName("001"))
 	c04addName("byte-0x01", c04wireName("\x01"))
 	c04addName("double-letter", c04wireName("aa"))
+	// field-boundary family (K2): names that extend one another by a one-octet
+	// label; together with classes / types whose octets spell such a label plus
+	// the dot they expose any key layout in which the end of the name is not
+	// delimited from the fixed-width fields next to it.
+	c04boundary = nil
+	for _, labels := range [][]string{{"b"}, {"a", "a"}, {"a", "b"}, {"b", "a"}, {"b", "b"}, {"a", "a", "a"}} {
+		c04boundary = append(c04boundary, c04addName("boundary:"+strings.Join(labels, "."), c04wireName(labels...)))
+	}
+	c04boundary = append([]int{0}, c04boundary...) // "a" itself
 	return quick
 }
+
+var c04boundary []int
 
 func (q c04q) id() uint64 {
 	return uint64(q.N)<<35 | uint64(q.T)<<19 | uint64(q.C)<<3 | uint64(q.F&7)
@@ -602,6 +613,34 @@ func TestVerifC04(t *testing.T) {
 				}
 			}
 			sweepDone++
+		}
+	}
+	// K2: field-boundary family
+	b2classes := []uint16{1, 0x612e, 0x622e, 0x2e61, 0x2e62, 0x6161}
+	b2types := []uint16{1, 0x612e, 0x2e61}
+	res.Bounds["K2.boundary"] = fmt.Sprintf("names {a, b, a.a, a.b, b.a, b.b, a.a.a} x (all 65536 types x classes %v + all 65536 classes x types %v) x 8 flags", b2classes, b2types)
+	for _, n := range c04boundary {
+		if !res.Exhaustive {
+			break
+		}
+		if e.Expired() {
+			res.Exhaustive = false
+			res.Notes = append(res.Notes, "K2: budget expired in the field-boundary family")
+			break
+		}
+		for ti := 0; ti < 65536; ti++ {
+			for _, c := range b2classes {
+				for f := uint8(0); f < 8; f++ {
+					visit(c04q{N: n, T: uint16(ti), C: c, F: f})
+				}
+			}
+		}
+		for c := 0; c < 65536; c++ {
+			for _, ty := range b2types {
+				for f := uint8(0); f < 8; f++ {
+					visit(c04q{N: n, T: ty, C: uint16(c), F: f})
+				}
+			}
 		}
 	}
 	for n, v := range perName {
